@@ -548,6 +548,11 @@ impl<K: KeyT> SetWorld<K> {
                 }
             }
         }
+        if !self.ctx.functional() && op.k == Kd::GetOrInsertWith && matches!(out, Out::Panic(_)) {
+            // with a broken Eq the documented "new value is not equivalent" assertion may fire: a panic, not UB
+            self.ctx.drain_callback_violations()?;
+            return Ok(());
+        }
         let Some((flag, ret)) = self.settle(out, si, fc)? else { return Ok(()) };
         if !self.ctx.functional() {
             return Ok(());
@@ -807,6 +812,7 @@ impl<K: KeyT> SetWorld<K> {
 
     fn op_clear(&mut self, si: usize, op: &Op) -> VResult {
         let fc = self.fctx(si, op);
+        let cap0 = self.set(si).capacity();
         let size0 = self.set(si).allocation_size();
         let s = self.slots[si].set.as_mut().unwrap();
         let out = self.ctx.call(op, || s.clear());
@@ -818,6 +824,9 @@ impl<K: KeyT> SetWorld<K> {
         self.dropped_check(&model, "clear()")?;
         if self.ctx.last_alloc_calls + self.ctx.last_dealloc_calls != 0 || self.set(si).allocation_size() != size0 {
             vio!(self, "cap/clear-changed-allocation", "clear() changed the allocation");
+        }
+        if self.set(si).capacity() < cap0 {
+            vio!(self, "cap/clear-lost-capacity", "after clear() capacity() is {} (it was {cap0} before)", self.set(si).capacity());
         }
         Ok(())
     }
@@ -975,6 +984,7 @@ impl<K: KeyT> SetWorld<K> {
         let steps = op.a;
         let forget = op.b == 1;
         let fc = self.fctx(si, op);
+        let cap0 = self.set(si).capacity();
         let size0 = self.set(si).allocation_size();
         let n0 = self.slots[si].model.len();
         let s = self.slots[si].set.as_mut().unwrap();
@@ -1056,6 +1066,9 @@ impl<K: KeyT> SetWorld<K> {
         }
         if !forget && (st.allocation_size() != size0 || self.ctx.last_alloc_calls + self.ctx.last_dealloc_calls != 0) {
             vio!(self, "drain/allocation", "drain changed the allocation");
+        }
+        if !forget && self.set(si).capacity() < cap0 {
+            vio!(self, "drain/capacity-lost", "after drain capacity() is {} although the collection is empty and keeps its allocation (it was {cap0} before)", self.set(si).capacity());
         }
         Ok(())
     }
